@@ -9,6 +9,71 @@ use std::rc::Rc;
 use std::task::{Context, Poll};
 use tokio::io::{AsyncRead, AsyncWrite, ReadBuf};
 
+/// Number of payload shapes `make_err` knows.
+pub const ERR_SHAPES: u8 = 6;
+
+#[derive(Debug)]
+struct ChainedCause(io::Error);
+impl std::fmt::Display for ChainedCause {
+    fn fmt(&self, f: &mut std::fmt::Formatter<'_>) -> std::fmt::Result {
+        write!(f, "transport adapter failure")
+    }
+}
+impl std::error::Error for ChainedCause {
+    fn source(&self) -> Option<&(dyn std::error::Error + 'static)> {
+        Some(&self.0)
+    }
+}
+
+/// The kind an error nested inside an injected error of kind `k` carries: chosen to be the most misleading one
+/// (an EOF inside anything else, a connection reset inside an EOF).
+pub fn inner_kind(k: io::ErrorKind) -> io::ErrorKind {
+    if k == io::ErrorKind::UnexpectedEof {
+        io::ErrorKind::ConnectionReset
+    } else {
+        io::ErrorKind::UnexpectedEof
+    }
+}
+
+/// An `io::Error` of kind `kind` in one of the payload shapes real transports produce. Whatever the shape,
+/// `kind()` of the result is `kind`: 0 message payload, 1 bare kind, 2 another io::Error of a different kind as
+/// payload (TLS / WebSocket adapters wrap the socket error), 3 a custom error whose `source()` chain leads to an
+/// io::Error of a different kind, 4 an OS error code where the kind has one, 5 `io::Error::other`-style boxed
+/// std error (only for kind Other; otherwise as 0 with an empty message).
+pub fn make_err(kind: io::ErrorKind, shape: u8) -> io::Error {
+    use io::ErrorKind as K;
+    let e = match shape % ERR_SHAPES {
+        1 => io::Error::from(kind),
+        2 => io::Error::new(kind, io::Error::new(inner_kind(kind), "inner")),
+        3 => io::Error::new(kind, ChainedCause(io::Error::from(inner_kind(kind)))),
+        4 => match kind {
+            K::ConnectionReset => io::Error::from_raw_os_error(libc::ECONNRESET),
+            K::BrokenPipe => io::Error::from_raw_os_error(libc::EPIPE),
+            K::TimedOut => io::Error::from_raw_os_error(libc::ETIMEDOUT),
+            K::PermissionDenied => io::Error::from_raw_os_error(libc::EACCES),
+            K::ConnectionAborted => io::Error::from_raw_os_error(libc::ECONNABORTED),
+            K::NotConnected => io::Error::from_raw_os_error(libc::ENOTCONN),
+            K::ConnectionRefused => io::Error::from_raw_os_error(libc::ECONNREFUSED),
+            K::AddrInUse => io::Error::from_raw_os_error(libc::EADDRINUSE),
+            K::NotFound => io::Error::from_raw_os_error(libc::ENOENT),
+            K::AlreadyExists => io::Error::from_raw_os_error(libc::EEXIST),
+            K::InvalidInput => io::Error::from_raw_os_error(libc::EINVAL),
+            K::OutOfMemory => io::Error::from_raw_os_error(libc::ENOMEM),
+            _ => io::Error::new(kind, "injected"),
+        },
+        5 => {
+            if kind == K::Other {
+                io::Error::other(ChainedCause(io::Error::from(K::UnexpectedEof)))
+            } else {
+                io::Error::new(kind, "")
+            }
+        }
+        _ => io::Error::new(kind, "injected"),
+    };
+    debug_assert_eq!(e.kind(), kind);
+    e
+}
+
 #[derive(Clone, Copy, Debug, PartialEq, Eq)]
 pub enum Step {
     Pending,
@@ -43,6 +108,11 @@ pub struct ScriptedReader<'a> {
     /// (the style of tokio's AsyncFd example, TLS wrappers and compat layers; it initialises the whole
     /// unfilled part of the buffer but only advances by what was received)
     pub fill_style: u8,
+    /// payload shape of the injected error (see `make_err`)
+    pub fault_shape: u8,
+    /// the stream end is signalled by `Err(UnexpectedEof)` (as TLS wrappers do for a missing close_notify)
+    /// instead of a read that fills nothing
+    pub eof_as_error: bool,
 }
 
 impl<'a> ScriptedReader<'a> {
@@ -60,10 +130,16 @@ impl<'a> ScriptedReader<'a> {
             pendings: Rc::new(Cell::new(0)),
             reads_at_end: 0,
             fill_style: 0,
+            fault_shape: 0,
+            eof_as_error: false,
         }
     }
     pub fn with_fault(mut self, pos: usize, kind: io::ErrorKind) -> Self {
         self.fault = Some((pos, kind));
+        self
+    }
+    pub fn with_fault_shape(mut self, shape: u8) -> Self {
+        self.fault_shape = shape;
         self
     }
     pub fn logging(mut self) -> Self {
@@ -95,12 +171,18 @@ impl<'a> AsyncRead for ScriptedReader<'a> {
                 if me.keep_log {
                     me.log.push(ReadRec { pos: me.pos, cap, got: Some(usize::MAX) });
                 }
-                return Poll::Ready(Err(io::Error::new(kind, "injected")));
+                return Poll::Ready(Err(make_err(kind, me.fault_shape)));
             }
         }
         let mut n = me.data.len() - me.pos;
         if n == 0 {
             me.reads_at_end += 1;
+            if me.eof_as_error && cap > 0 {
+                if me.keep_log {
+                    me.log.push(ReadRec { pos: me.pos, cap, got: Some(usize::MAX) });
+                }
+                return Poll::Ready(Err(make_err(io::ErrorKind::UnexpectedEof, me.fault_shape)));
+            }
         }
         if let Some(Step::Chunk(k)) = step {
             n = n.min(k.max(1));
@@ -146,6 +228,8 @@ pub struct ScriptedWriter<'a> {
     /// the sink implements vectored writes itself (a short vectored write may end inside any buffer)
     pub vectored: bool,
     pub vectored_calls: usize,
+    /// payload shape of the injected error (see `make_err`)
+    pub fault_shape: u8,
 }
 
 impl<'a> ScriptedWriter<'a> {
@@ -162,6 +246,7 @@ impl<'a> ScriptedWriter<'a> {
             one_byte: false,
             vectored: false,
             vectored_calls: 0,
+            fault_shape: 0,
         }
     }
     fn do_write_vectored(&mut self, bufs: &[io::IoSlice<'_>]) -> Result<Option<usize>, io::Error> {
@@ -186,7 +271,7 @@ impl<'a> ScriptedWriter<'a> {
         }
         if let Some((fp, kind)) = self.fault {
             if self.out.len() >= fp {
-                return Err(io::Error::new(kind, "injected"));
+                return Err(make_err(kind, self.fault_shape));
             }
         }
         if let Some(z) = self.zero_at {
